@@ -263,6 +263,59 @@ theorem Ell.nearest_is_minimal (r p : V3 K) (t : K) (hr : r.x ≠ 0 ∧ r.y ≠ 
   have t2 : 0 ≤ (p.z * (r.z * r.z) / (t + r.z * r.z) - q.z) ^ 2 * ((t + r.z * r.z) / (r.z * r.z)) :=
     mul_nonneg (sq_nonneg _) (div_nonneg g2.le (mul_self_nonneg _))
   linarith
+/-- torus (`Torus::Impl::findNearestPoint`, generic branch: query off the z axis and off the centre circle, tube
+radius `r ≤ R`): the returned point is on the surface -/
+theorem Tor.nearest_on_surface (sqrt : K → K) (hsq : SqrtSpec sqrt) (eps R r : K) (hr : 0 < r) (hrR : r ≤ R) (q : V3 K)
+    (hgen : ¬ (absK (sqrt (V3.normSq ⟨q.x, q.y, 0⟩)) < eps))
+    (hn : 0 < sqrt (V3.normSq ⟨q.x, q.y, 0⟩))
+    (hcc : sqrt (V3.normSq ⟨q.x, q.y, 0⟩) ≠ R ∨ q.z ≠ 0) :
+    Tor.value sqrt R r (Tor.nearestPt sqrt eps R r q) = 0 := by
+  have e0 : (⟨q.x - 0 * (q.x * 0 + q.y * 0 + q.z * 1), q.y - 0 * (q.x * 0 + q.y * 0 + q.z * 1),
+      q.z - 1 * (q.x * 0 + q.y * 0 + q.z * 1)⟩ : V3 K) = ⟨q.x, q.y, 0⟩ := by
+    simp
+  unfold Tor.nearestPt
+  simp only [e0, if_neg hgen]
+  have hn2 := hsq.sq (V3.normSq ⟨q.x, q.y, 0⟩) (normSq_nonneg _)
+  generalize sqrt (V3.normSq ⟨q.x, q.y, 0⟩) = n at hn hn2 hcc
+  have hn0 : n ≠ 0 := ne_of_gt hn
+  simp only [V3.normSq, V3.dot, mul_zero, add_zero] at hn2
+  -- W = |q - P|²
+  have hW : V3.normSq (V3.sub q (V3.smul R (V3.sdiv ⟨q.x, q.y, 0⟩ n))) = (n - R) * (n - R) + q.z * q.z := by
+    simp only [V3.normSq, V3.dot, V3.sub, V3.smul, V3.sdiv, zero_div, mul_zero, sub_zero]
+    field_simp
+    linear_combination (-((n - R) * (n - R))) * hn2
+  have hWpos : 0 < (n - R) * (n - R) + q.z * q.z := by
+    rcases hcc with h | h
+    · have : 0 < (n - R) * (n - R) := mul_self_pos.mpr (sub_ne_zero.mpr h)
+      nlinarith [mul_self_nonneg q.z]
+    · have : 0 < q.z * q.z := mul_self_pos.mpr h
+      nlinarith [mul_self_nonneg (n - R)]
+  have hw2 := hsq.sq _ (le_of_lt hWpos)
+  have hwn := hsq.nonneg _ (le_of_lt hWpos)
+  simp only [V3.unit, hW]
+  generalize sqrt ((n - R) * (n - R) + q.z * q.z) = w at hw2 hwn
+  have hw0 : w ≠ 0 := by
+    intro h; rw [h] at hw2; linarith
+  have hwpos : 0 < w := lt_of_le_of_ne hwn (Ne.symm hw0)
+  -- k = R + r (n - R)/w ≥ 0
+  have habs : -(w) ≤ n - R ∧ n - R ≤ w := by
+    constructor
+    · have : -(n - R) ≤ w := le_of_sq_le hwn (by nlinarith [mul_self_nonneg q.z])
+      linarith
+    · exact le_of_sq_le hwn (by nlinarith [mul_self_nonneg q.z])
+  have hk : 0 ≤ R + r * ((n - R) / w) := by
+    have : -1 ≤ (n - R) / w := by rw [le_div_iff₀ hwpos]; linarith [habs.1]
+    nlinarith
+  simp only [Tor.value, V3.add, V3.smul, V3.sdiv, V3.sub, sq, zero_div, mul_zero, sub_zero, zero_add]
+  have hxy : (R * (q.x / n) + r * ((q.x - R * (q.x / n)) / w)) * (R * (q.x / n) + r * ((q.x - R * (q.x / n)) / w))
+      + (R * (q.y / n) + r * ((q.y - R * (q.y / n)) / w)) * (R * (q.y / n) + r * ((q.y - R * (q.y / n)) / w))
+      = (R + r * ((n - R) / w)) * (R + r * ((n - R) / w)) := by
+    field_simp
+    linear_combination (-((R * w + r * (n - R)) ^ 2)) * hn2
+  rw [hxy, sqrt_mul_self sqrt hsq _ hk]
+  field_simp
+  linear_combination (r ^ 2) * hw2
+
 /-- brick (`Geo::Box::findClosestPointOnSurface`): the returned point is on the box surface and no surface
 point is nearer to the query -/
 theorem Box.nearest_on_surface_and_minimal (h p : V3 K) (hh : 0 ≤ h.x ∧ 0 ≤ h.y ∧ 0 ≤ h.z) :
